@@ -6,7 +6,9 @@ set -u
 W=$1; ID=$2
 cd "$W" || exit 2
 [ -f _seed/patch.diff ] && [ -f _seed/demo.py ] || { echo "missing _seed files"; exit 2; }
-git stash -q -u -- . ':!_seed' 2>/dev/null || git stash -q
+# no git stash here: the stash is shared between worktrees of one repository
+git checkout -q -- spyne
+[ -z "$(git status --porcelain -- spyne)" ] || { echo "worktree has untracked source files"; git status --porcelain -- spyne; }
 git apply --check _seed/patch.diff || { echo "patch does not apply to clean tree"; exit 2; }
 PYTHONPATH=$W timeout 600 /venv/bin/python -B _seed/demo.py >/tmp/seedv.$$.clean 2>&1; A=$?
 git apply _seed/patch.diff
@@ -15,7 +17,6 @@ echo "demo clean exit=$A  mutated exit=$B"
 tail -3 /tmp/seedv.$$.mut
 BL=$(/venv/bin/python /verif/tools/baseline.py "$W" 2>&1 | tail -1)
 echo "baseline: $BL"
-git stash drop -q 2>/dev/null
 rm -f /tmp/seedv.$$.*
 if [ $A -eq 0 ] && [ $B -ne 0 ] && echo "$BL" | grep -q "regressions: 0"; then
   mkdir -p /verif/seeded/$ID
